@@ -303,6 +303,7 @@ def run(chk, repo, tier):
         chk.violation(R4, rel, rd.qualname, f'sep={sep!r}', 'comma, TAB and blanks must all separate items', line=seps[0].lineno,
                       witness='a space separated file is read as one column')
     run_more(chk, repo)
+    run_r7(chk, repo)
 
 
 def run_more(chk, repo):
@@ -362,3 +363,94 @@ def run_more(chk, repo):
                       line=fo.node.lineno,
                       witness='$INPUT with EVID and MDV; an individual whose only EVID=0 records have MDV=1 is kept although it '
                               'has no observation')
+
+
+def run_r7(chk, repo):
+    import itertools
+    R7 = chk.rule('R7', 'update_source removes the IGNORE/ACCEPT filters of $DATA only when the record stops referring to the '
+                        'original file (dataset rewritten or path changed)', floor=1)
+    mm = repo.module('pharmpy.model.external.nonmem.model')
+    us = mm.classes['Model'].methods.get('update_source')
+    if us is None:
+        raise AnalysisError('update_source not found')
+    parent = {}
+    for n in ast.walk(us.node):
+        for c in ast.iter_child_nodes(n):
+            parent[c] = n
+    removes = [n for n in ast.walk(us.node) if isinstance(n, ast.Call) and isinstance(n.func, ast.Attribute)
+               and n.func.attr in ('remove_ignore', 'remove_accept')]
+    if not removes:
+        raise AnalysisError('R7: remove_ignore()/remove_accept() not found in update_source')
+    bool_defs = {n.targets[0].id: n.value for n in walk_no_nested(us.node) if isinstance(n, ast.Assign)
+                 and isinstance(n.targets[0], ast.Name) and isinstance(n.value, (ast.BoolOp, ast.Compare))}
+    stmt = removes[0]
+    guards = []
+    cur = stmt
+    while cur in parent:
+        p = parent[cur]
+        if isinstance(p, ast.If):
+            if any(cur is x or any(cur is y for y in ast.walk(x)) for x in p.body):
+                guards.append((p.test, True))
+            elif any(cur is x or any(cur is y for y in ast.walk(x)) for x in p.orelse):
+                guards.append((p.test, False))
+        cur = p
+
+    def classify(leaf):
+        t = unparse(leaf)
+        if t == 'updated_dataset':
+            return 'rewritten'
+        if 'path is None' in t:
+            return 'rewritten'
+        if '.path !=' in t and 'old_datainfo.path' in t:
+            return 'path_changed'
+        if 'dataset is not None' in t or 'dataset is None' in t:
+            return 'has_dataset'
+        return 'other:' + t
+
+    def expand(e):
+        if isinstance(e, ast.Name) and e.id in bool_defs:
+            return expand(bool_defs[e.id])
+        if isinstance(e, ast.BoolOp):
+            return ast.BoolOp(op=e.op, values=[expand(v) for v in e.values])
+        if isinstance(e, ast.UnaryOp) and isinstance(e.op, ast.Not):
+            return ast.UnaryOp(op=e.op, operand=expand(e.operand))
+        return e
+    exps = [(expand(t), pol) for t, pol in guards]
+    atoms = sorted({classify(l) for t, _ in exps for l in ast.walk(t)
+                    if not isinstance(l, (ast.BoolOp, ast.boolop, ast.unaryop, ast.UnaryOp, ast.expr_context, ast.cmpop))
+                    and isinstance(l, (ast.Compare, ast.Name, ast.Call, ast.Attribute))
+                    and not any(isinstance(a, (ast.Compare,)) and l is not a and any(l is d for d in ast.walk(a))
+                                for t2, _ in exps for a in ast.walk(t2))})
+
+    def ev(e, env):
+        if isinstance(e, ast.BoolOp):
+            vals = [ev(v, env) for v in e.values]
+            return all(vals) if isinstance(e.op, ast.And) else any(vals)
+        if isinstance(e, ast.UnaryOp) and isinstance(e.op, ast.Not):
+            return not ev(e.operand, env)
+        return env[classify(e)]
+    leaves = sorted({classify(l) for t, _ in exps for l in _leaves(t)})
+    bad = []
+    for vals in itertools.product([False, True], repeat=len(leaves)):
+        env = dict(zip(leaves, vals))
+        if all(ev(t, env) == pol for t, pol in exps):
+            if not (env.get('rewritten') or env.get('path_changed')):
+                bad.append({k: v for k, v in env.items() if v})
+    chk.instance(R7, f'filters removed under {[unparse(t)[:70] for t, _ in guards]}; reachable with the file reference unchanged: '
+                     f'{bool(bad)}')
+    if bad:
+        chk.violation(R7, mm.rel, us.qualname, f'{unparse(parent.get(stmt, stmt))[:90]}',
+                      f'the filters are removed although the record keeps its file name (e.g. when only {bad[0]} holds): NONMEM '
+                      f'then reads records that model.dataset does not contain', line=stmt.lineno,
+                      witness="$DATA 'pheno.dta' IGNORE=@ IGNORE=(WGT.GT.1.5), then drop_columns(model, ['APGR'], mark=True): "
+                              "the code reads all 744 records, model.dataset has 542")
+
+
+def _leaves(e):
+    if isinstance(e, ast.BoolOp):
+        for v in e.values:
+            yield from _leaves(v)
+    elif isinstance(e, ast.UnaryOp) and isinstance(e.op, ast.Not):
+        yield from _leaves(e.operand)
+    else:
+        yield e
